@@ -73,6 +73,15 @@ Theorem map_write_refuted :
 Proof. exact map_write_refuted_proof. Qed.
 Print Assumptions map_write_refuted.
 
+(* A third defect class the model expresses and refutes: an operation that tidies up, IN PLACE, a slice it was handed —
+   when that slice is what another mesh's accessor handed out.  [step_tidy]: SetMaterials dropping the ranges without
+   primitives with the in-place filter idiom; in x.SetMaterials(y.Materials()) it rewrites what y reports. *)
+Theorem accessor_write_refuted :
+  exists ops k t t', t <= t' /\ k < length (pool (run_tidy grow_double ops t)) /\
+    observe_member (run_tidy grow_double ops t') k <> observe_member (run_tidy grow_double ops t) k.
+Proof. exact accessor_write_refuted_proof. Qed.
+Print Assumptions accessor_write_refuted.
+
 (* Order independence of CONTENT.  [added grow st o] = the error class o shows in state st and the observations of the
    meshes it creates.  For two derivations o1, o2 of a reachable state (every pool index they mention exists in it):
    what o1 adds is the same whether o2 ran first or not, and vice versa — the two results are the same in either
